@@ -86,7 +86,8 @@ var vTransforms = []vTransform{
 	{Name: "tight-slashes", Line: prefixer("//")},
 	{Name: "blank-lines", BlankBefore: true},
 	{Name: "unicode-dashes", Line: func(l string, i int) string {
-		d := []string{"–", "—", "‐", "‒"}[i%4]
+		// hyphen, non-breaking hyphen, figure dash, en dash, em dash, horizontal bar, minus sign
+		d := []string{"\u2013", "\u2014", "\u2010", "\u2012", "\u2011", "\u2015", "\u2212"}[i%7]
 		return strings.ReplaceAll(l, "-", d)
 	}},
 	{Name: "curly-quotes", Line: func(l string, _ int) string {
@@ -97,7 +98,7 @@ var vTransforms = []vTransform{
 
 func isHyphen(r rune) bool {
 	switch r {
-	case '-', '‒', '–', '—', '‐':
+	case '-', '‒', '–', '—', '‐', '\u2011', '\u2015', '\u2212':
 		return true
 	}
 	return false
